@@ -327,9 +327,43 @@ func checkTraversal(c *explore.Ctx, roots []ast.Node, list bool, maxAll int, wit
 	}
 }
 
+// checkSourceOrder: field-declaration order is source order, so on an error-free parse the children of
+// a node (in traversal order, which checkTraversal ties to R5) start at non-decreasing positions.
+// CreateTable is exempt (the property C05 names its kind-grouped elements).
+func checkSourceOrder(roots []ast.Node) map[string]string {
+	viol := map[string]string{}
+	for _, root := range roots {
+		if oracle.IsNilNode(root) {
+			continue
+		}
+		vs := oracle.Preorder(root)
+		last := map[int]int{}
+		for i, v := range vs {
+			if v.Parent < 0 {
+				continue
+			}
+			if _, isCT := vs[v.Parent].Node.(*ast.CreateTable); isCT {
+				continue
+			}
+			p, _, ok := safePosEnd(v.Node)
+			if !ok || p < 0 {
+				continue
+			}
+			if j, seen := last[v.Parent]; seen {
+				if q, _, ok2 := safePosEnd(vs[j].Node); ok2 && q >= 0 && p < q {
+					ptn := oracle.TypeName(vs[v.Parent].Node)
+					viol["C17/source-order/"+ptn+"."+fieldOfPath(vs[j].Path)+"-"+fieldOfPath(v.Path)] = fmt.Sprintf("under %s the traversal visits %s (starts at %d) before %s (starts at %d): siblings are not in source order", ptn, vs[j].Path, q, v.Path, p)
+				}
+			}
+			last[v.Parent] = i
+		}
+	}
+	return viol
+}
+
 // C17: traversal.
 func C17(r *explore.Run) {
-	r.Rule = "every tree of the S3 token strings, corpus files, grammar sentences and synthetic node shapes (S7): Walk with a path-recording visitor == reflective preorder R5 (nodes, order, Field/Index paths); Inspect/Preorder agree; for every distinct tree shape all prune sets (<= maxAll nodes) or all prune sets of size <=2, and every early-exit index of Preorder; *Many variants on lists; " +
+	r.Rule = "every tree of the S3 token strings, corpus files, grammar sentences and synthetic node shapes (S7): Walk with a path-recording visitor == reflective preorder R5 (nodes, order, Field/Index paths); Inspect/Preorder agree; on error-free parses siblings start at non-decreasing positions; for every distinct tree shape all prune sets (<= maxAll nodes) or all prune sets of size <=2, and every early-exit index of Preorder; *Many variants on lists; " +
 		"non-trivial = tree with >=2 nodes; distinct by (entry point, tree shape)"
 	r.Assume = []string{"Walk's behaviour depends only on the tree shape (node types and which children are present), so prune sets are enumerated once per distinct shape"}
 	maxAll := 8
@@ -338,6 +372,11 @@ func C17(r *explore.Run) {
 	}
 	treeSpacesMode(r, 2, "full", func(c *explore.Ctx, e *Entry, s string, res ParseResult) {
 		checkTraversal(c, res.Roots, !e.Single, maxAll, e.Name+": "+s)
+		if res.Err == nil {
+			for sig, d := range checkSourceOrder(res.Roots) {
+				c.Violation(sig, e.Name+": "+s, d)
+			}
+		}
 		outcomeTree(c, e, s, res)
 	})
 	shapesSpace(r, func(c *explore.Ctx, n ast.Node, desc string) {
